@@ -18,7 +18,7 @@ With `conc = false` the `pool` channel starts empty and the same system describe
 sequential mode (the caller is then blocked at push.recv until the writer has returned).
 
 The model mirrors the code after the `fix:` commits of C11, C12 (`Finalise` waits for the
-outstanding writers: `wg`) and C13 (`setErr` keeps the first error and ignores nil).
+outstanding writers: `wg`) and C13 (a successful `Sync` no longer overwrites `_err`).
 `Pull` and `Clear` without a pending fault are the functions of the sequential model
 (`pullF_nofault`, `clearF_nofault` in `Proofs/MorassConc.lean`).  Core Lean only.
 -/
@@ -60,6 +60,7 @@ deriving DecidableEq, Repr
 
 structure CState where
   m : Morass.State
+  conc : Bool := false                -- background writing enabled (`New(..., concurrent)`)
   autoClean : Bool := false
   writable : Chan (List Elem) := { cap := 1, buf := [] }
   writers : List Writer := []
@@ -75,13 +76,11 @@ deriving Repr
 
 def initState (conc : Bool) (chunkSize : Nat) (autoClear autoClean : Bool) (prog : List Op)
     (flt : Fault) : CState :=
-  { m := { chunkSize, autoClear, pool := if conc then 1 else 0 }, autoClean, prog, flt }
+  { m := { chunkSize, autoClear, pool := if conc then 1 else 0 }, conc, autoClean, prog, flt }
 
-/-- `setErr` (after the fix for C13: nil is ignored, the first error is kept) -/
-def setErr (m : Morass.State) (e : Res) : Morass.State :=
-  match m.err with
-  | none => { m with err := some e }
-  | some _ => m
+/-- `setErr` is only ever called with a non-nil error (after the fix for C13 a successful Sync
+    no longer stores nil) -/
+def setErr (m : Morass.State) (e : Res) : Morass.State := { m with err := some e }
 
 def appendData (fs : List File) (i : Nat) (e : Elem) : List File :=
   fs.modify i (fun f => { f with data := f.data ++ [e] })
@@ -146,6 +145,10 @@ def clearF (s : CState) : CState × Res :=
   if ok then ({ s with flt, onDisk := disk, m := clear s.m }, .ok)
   else ({ s with flt, onDisk := disk }, .ioerr)
 
+/-- `if m.AutoClean { os.RemoveAll(m.dir) }` when `Pull` reports `io.EOF` -/
+def atEof (s : CState) : CState :=
+  if s.autoClean then { s with onDisk := 0, dirExists := false } else s
+
 /-- `Pull` with faults and residue -/
 def pullF (s : CState) : CState × Res × Option Elem :=
   let m := s.m
@@ -157,32 +160,37 @@ def pullF (s : CState) : CState × Res × Option Elem :=
       | none =>
         if 2 ≤ m.pool then (s, .hang, none) else
         let s1 := { s with m := { m with pool := m.pool + 1, chunk := none } }
-        (if m.autoClear then (clearF s1).1 else s1, .eof, none)
-    | none => (if m.autoClear then (clearF s).1 else s, .eof, none)
+        (atEof (if m.autoClear then (clearF s1).1 else s1), .eof, none)
+    | none => (atEof (if m.autoClear then (clearF s).1 else s), .eof, none)
   else
     match popMin m.files with
     | some (low, others) =>
+      let (bad, flt) := tick s.flt .pdecode
+      -- the file is closed (and removed under AutoClear) on io.EOF and on a decode error
+      let gone : CState := { s with flt, m := { m with files := others, pos := m.pos + 1 },
+                                    onDisk := if m.autoClear then s.onDisk - 1 else s.onDisk }
+      let s' : CState :=
+        if bad then gone else
+        match low.rest with
+        | n :: r => { s with flt, m := { m with files := { low with head := some n, rest := r } :: others, pos := m.pos + 1 } }
+        | [] => gone
+      if bad then (s', .ioerr, none) else
       match low.head with
-      | none => (s, .panic, none)
-      | some e =>
-        let (bad, flt) := tick s.flt .pdecode
-        if bad then
-          -- default branch: the file is closed (and removed under AutoClear), the error returned
-          ({ s with flt, m := { m with files := others, pos := m.pos + 1 },
-                    onDisk := if m.autoClear then s.onDisk - 1 else s.onDisk }, .ioerr, none)
-        else
-          match low.rest with
-          | n :: r => ({ s with flt, m := { m with files := { low with head := some n, rest := r } :: others, pos := m.pos + 1 } }, .ok, some e)
-          | [] => ({ s with flt, m := { m with files := others, pos := m.pos + 1 },
-                            onDisk := if m.autoClear then s.onDisk - 1 else s.onDisk }, .ok, some e)
+      | none => (s', .panic, none)
+      | some e => (s', .ok, some e)
     | none =>
-      let s1 := if m.autoClear then (clearF s).1 else s
-      let s2 := if s.autoClean then { s1 with onDisk := 0, dirExists := false } else s1
-      (s2, .eof, none)
+      (atEof (if m.autoClear then (clearF s).1 else s), .eof, none)
 
 /-- the caller finishes its current call with result `r` (and value `v`) -/
 def finishOp (s : CState) (r : Res) (v : Option Elem) : CState :=
-  { s with pc := .idle, prog := s.prog.tail, outs := ⟨r, v, s.m.len, s.m.pos⟩ :: s.outs }
+  { s with pc := .idle, outs := ⟨r, v, s.m.len, s.m.pos⟩ :: s.outs,
+           -- a panic (or a call that never returns) ends the caller's program; after an I/O error
+           -- the caller gives up the cycle: it makes no further call until its next `Clear`
+           -- (sequential mode), or gives up altogether (concurrent mode: writers of the failed
+           -- cycle may still be running, and `Clear` does not wait for them)
+           prog := if r = .panic ∨ r = .hang then []
+                   else if r = .ioerr then (if s.conc then [] else s.prog.tail.dropWhile (· != Op.clear))
+                   else s.prog.tail }
 
 /-- one atomic block of the caller -/
 def cstep (s : CState) : Option CState :=
